@@ -12,6 +12,7 @@ from __future__ import annotations
 
 import ast
 import bisect as _bisect
+import re as _re
 from typing import Callable, Optional
 
 from .core import FuncInfo, Project, attr_chain, unparse
@@ -115,7 +116,10 @@ SAFE_METHODS = {
     dict: {"get", "items", "keys", "values", "pop", "setdefault", "update", "copy"},
     set: {"add", "update", "discard", "remove", "copy", "union", "intersection", "difference", "issubset"},
     str: {"startswith", "endswith", "strip", "lstrip", "rstrip", "lower", "upper", "casefold", "isspace", "split", "join", "replace",
-          "find", "format", "rpartition", "partition", "count", "splitlines", "isdigit"},
+          "find", "format", "rpartition", "partition", "count", "splitlines", "isdigit", "removeprefix", "removesuffix", "rfind",
+          "index", "isalpha", "isalnum", "title", "capitalize", "rsplit", "zfill", "ljust", "rjust", "center", "expandtabs"},
+    _re.Pattern: {"match", "search", "fullmatch", "sub", "findall", "split"},
+    _re.Match: {"group", "groups", "start", "end", "span"},
     tuple: {"index", "count"},
 }
 EXC_OF = {KeyError: "KeyError", IndexError: "IndexError", ValueError: "ValueError", TypeError: "TypeError",
@@ -619,6 +623,8 @@ class MiniInterp:
                     return self.ev(c.class_attrs[attr], {}, f0)
             raise Unknown(f"class attribute {attr}")
         if isinstance(obj, tuple) and obj and obj[0] == "external":
+            if obj[1] == "re" and attr in ("IGNORECASE", "I", "MULTILINE", "M", "DOTALL", "S", "VERBOSE", "X", "ASCII", "A"):
+                return int(getattr(_re, attr))
             return ("external", f"{obj[1]}.{attr}")
         if isinstance(obj, tuple) and obj and obj[0] == "super":
             _, me, cls_ = obj
@@ -715,6 +721,13 @@ class MiniInterp:
                 return getattr(_bisect, base)(list(args[0]), args[1])
             if base == "deepcopy" or base == "copy":
                 raise Unknown("copy of a value without hook")
+            mod = f[1].replace(":", ".").split(".")[0]
+            if mod == "re" and base in ("compile", "match", "search", "fullmatch", "sub", "findall", "escape") and \
+                    all(isinstance(a, (str, int, _re.Pattern)) for a in args) and all(isinstance(v, (str, int)) for v in kwargs.values()):
+                try:
+                    return getattr(_re, base)(*args, **kwargs)
+                except _re.error:
+                    raise PyRaise("error", n)
             raise Unknown(f"external call {f[1]}")
         if isinstance(f, tuple) and f and f[0] == "class":
             return self.construct(f[1], args, kwargs, n, fi)
